@@ -1,6 +1,7 @@
 import YatimlModel.Model.Load
 import YatimlModel.Lemmas.RecSound
 import YatimlModel.Lemmas.PlainData
+import YatimlModel.Lemmas.AttrOps
 /-!
 Conformance of the root value, all the way down through containers:
 
@@ -29,7 +30,10 @@ inductive TaggedR (env : Env) : Ty → Node → Prop
   | map {k : MapKind} {K V : Ty} {ps : Pairs} {m : Mark} :
       (∀ p, p ∈ ps.toList → Tagged env K p.1) → (∀ p, p ∈ ps.toList → Tagged env V p.2) →
       TaggedR env (.map k K V) (.map tMap ps m)
-  | cls {c : String} {n : Node} : env.isRegistered c = true → n.tag = "!" ++ c → TaggedR env (.cls c) n
+  | cls {c : String} {n : Node} : env.isRegistered c = true → n.tag = "!" ++ c →
+      (∀ dd, env.find c = some dd → dd.kind = .plain → ∀ p, p ∈ dd.params →
+        ∀ v, v ∈ valuesOf n.pairs p.name → Tagged env p.ty v) →
+      TaggedR env (.cls c) n
 end
 
 theorem tag_setTag (n : Node) (t : String) : (n.setTag t).tag = t := by cases n <;> rfl
@@ -87,11 +91,100 @@ theorem procPairs_tagged (env : Env) (proc : Node → Ty → ProcRes) (K V : Ty)
           · exact ⟨hk k ko hko, hv v vo hvo⟩
           · exact ih qs' tr' hr q hq
 
+theorem pairs_setTag (n : Node) (t : String) : (n.setTag t).pairs = n.pairs := by cases n <;> rfl
+
+/-- what the attribute loop of `__process_node` leaves behind: every occurrence of a parameter's key holds
+a tree tagged for that parameter's type; keys that are not parameters are untouched -/
+theorem procAttrs_tagged (env : Env) (proc : Node → Ty → ProcRes)
+    (hp : ∀ x U o, proc x U = .ok o → Tagged env U o.node) :
+    ∀ (params : List Param) (n n' : Node) (tr : List String), (params.map (·.name)).Nodup →
+      procAttrs proc n params = .ok (n', tr) →
+      (∀ p ∈ params, ∀ v, v ∈ valuesOf n'.pairs p.name → Tagged env p.ty v) ∧
+      (∀ a, (∀ p ∈ params, p.name ≠ a) → valuesOf n'.pairs a = valuesOf n.pairs a) := by
+  intro params
+  induction params with
+  | nil =>
+    intro n n' tr _ h
+    simp only [procAttrs, Except.ok.injEq, Prod.mk.injEq] at h
+    rw [← h.1]
+    exact ⟨fun p hp' => (by cases hp'), fun _ _ => rfl⟩
+  | cons p rest ih =>
+    intro n n' tr hnd h
+    simp only [List.map_cons, List.nodup_cons] at hnd
+    unfold procAttrs at h
+    split at h
+    · cases h
+    · -- the key is absent
+      rename_i hhas
+      obtain ⟨ih1, ih2⟩ := ih n n' tr hnd.2 h
+      have hnone : valuesOf n.pairs p.name = [] := by
+        cases n with
+        | map t ps m =>
+          simp only [hasAttribute, Except.ok.injEq] at hhas
+          exact valuesOf_nil_of_no_key _ _ hhas
+        | scalar _ _ _ => rfl
+        | seq _ _ _ => rfl
+      refine ⟨?_, ?_⟩
+      · intro q hq v hv
+        rcases List.mem_cons.mp hq with rfl | hq
+        · rw [ih2 q.name (fun r hr hne => hnd.1 (List.mem_map.mpr ⟨r, hr, hne⟩)), hnone] at hv
+          cases hv
+        · exact ih1 q hq v hv
+      · intro a ha
+        exact ih2 a (fun r hr => ha r (List.mem_cons_of_mem _ hr))
+    · -- the key is present
+      rename_i hhas
+      split at h
+      · cases h
+      · rename_i sub hget
+        split at h
+        · cases h
+        · rename_i o ho
+          split at h
+          · cases h
+          · rename_i n1 hset
+            split at h
+            · cases h
+            · rename_i n2 tr2 hrest
+              simp only [Except.ok.injEq, Prod.mk.injEq] at h
+              rw [← h.1]
+              obtain ⟨ih1, ih2⟩ := ih n1 n2 tr2 hnd.2 hrest
+              -- `n` is a mapping with exactly one value under the key
+              cases n with
+              | scalar _ _ _ => simp [getAttribute] at hget
+              | seq _ _ _ => simp [getAttribute] at hget
+              | map t ps m =>
+                simp only [hasAttribute, Except.ok.injEq] at hhas
+                have huniq : valuesOf ps.toList p.name = [sub] := by
+                  simp only [getAttribute] at hget
+                  split at hget
+                  · rename_i v hv
+                    simp only [Except.ok.injEq] at hget
+                    rw [hv, hget]
+                  · cases hget
+                simp only [setAttribute, Except.ok.injEq] at hset
+                have hn1 : n1.pairs = setFirst ps.toList p.name o.node := by
+                  rw [← hset]; simp [Node.pairs]
+                refine ⟨?_, ?_⟩
+                · intro q hq v hv
+                  rcases List.mem_cons.mp hq with rfl | hq
+                  · rw [ih2 q.name (fun r hr hne => hnd.1 (List.mem_map.mpr ⟨r, hr, hne⟩)), hn1,
+                      valuesOf_setFirst_same _ _ _ hhas, huniq] at hv
+                    simp only [List.tail_cons, List.mem_singleton] at hv
+                    subst hv
+                    exact hp sub q.ty o ho
+                  · exact ih1 q hq v hv
+                · intro a ha
+                  rw [ih2 a (fun r hr => ha r (List.mem_cons_of_mem _ hr)), hn1]
+                  simp only [Node.pairs]
+                  exact valuesOf_setFirst_ne _ _ _ _ (ha p List.mem_cons_self)
+
 theorem typeToTag_scalar (env : Env) (R : Ty) (t : String) (h : scalarTag R = some t) : typeToTag env R = some t := by
   cases R <;> simp_all [scalarTag, typeToTag]
 
 /-- **Processing leaves a tree tagged for its type.** -/
-theorem processNode_tagged (env : Env) (tbl : List Entry) (htbl : TableCore tbl) :
+theorem processNode_tagged (env : Env) (tbl : List Entry) (htbl : TableCore tbl)
+    (hpn : ∀ c d, env.find c = some d → (d.params.map (·.name)).Nodup) :
     ∀ (fuel : Nat) (n : Node) (T : Ty) (o : ProcOut), processNode env tbl fuel n T = .ok o →
       Tagged env T o.node := by
   intro fuel
@@ -138,7 +231,23 @@ theorem processNode_tagged (env : Env) (tbl : List Entry) (htbl : TableCore tbl)
                   split at htag
                   · rename_i hreg
                     simp only [Option.some.injEq] at htag
-                    exact TaggedR.cls hreg (by rw [tag_setTag]; exact htag.symm)
+                    refine TaggedR.cls hreg (by rw [tag_setTag]; exact htag.symm) ?_
+                    intro dd hfd hplain q hq v hv
+                    rw [pairs_setTag] at hv
+                    simp only [subStep, hfd] at hsub
+                    have hpl : dd.isPlain = true := by simp [ClassDef.isPlain, hplain]
+                    rw [hpl] at hsub
+                    simp only [Bool.true_and] at hsub
+                    split at hsub
+                    · exact (procAttrs_tagged env _ (fun x U o ho => ih x U o ho) dd.params n2 n3 tr'
+                        (hpn c dd hfd) hsub).1 q hq v hv
+                    · rename_i hnm
+                      simp only [Except.ok.injEq, Prod.mk.injEq] at hsub
+                      rw [← hsub.1] at hv
+                      cases n2 with
+                      | map _ _ _ => simp [Node.isMapNode] at hnm
+                      | scalar _ _ _ => simp [Node.pairs, valuesOf] at hv
+                      | seq _ _ _ => simp [Node.pairs, valuesOf] at hv
                   · cases htag
                 | seq k item =>
                   simp only [typeToTag, Option.some.injEq] at htag
@@ -276,6 +385,8 @@ structure EnvWF (env : Env) : Prop where
   /-- the MRO of a class contains the MROs of its members -/
   trans : ∀ e ee d dd c, env.find e = some ee → ee.ancestors.contains d = true → env.find d = some dd →
     dd.ancestors.contains c = true → ee.ancestors.contains c = true
+  /-- the parameters of a constructor have distinct names -/
+  paramNames : ∀ c d, env.find c = some d → (d.params.map (·.name)).Nodup
 
 theorem isInstanceOf_up (env : Env) (hwf : EnvWF env) (v : PyVal) (c d : String) (hd : Descends env c d)
     (hc : Concrete env d) (h : isInstanceOf env v d = true) : isInstanceOf env v c = true := by
@@ -584,7 +695,7 @@ theorem key_tag_plain (env : Env) (K : Ty) (hK : KeyOk K) (k : Node) (h : Tagged
       | cls _ _ =>
         cases hr with
         | scalar ht _ => simp [scalarTag] at ht
-        | cls _ htag =>
+        | cls _ htag _ =>
           rw [htag]
           exact ⟨bang_ne_core _ tMerge (by decide), bang_ne_core _ tValue (by decide)⟩
 
@@ -738,8 +849,7 @@ theorem construct_conforms (env : Env) (tbl : List Entry) (hwf : EnvWF env) :
             (fun p hp => ⟨fun o' ho' => keyMatches_of_typeMatches env K hR.1 _ (ih p.1 K o' (hkeys p hp) hKd ho'),
                           fun o' ho' => ih p.2 V o' (hvals p hp) hR.2 ho'⟩)
             (by intro e he; cases he) hc
-      | cls hreg htg =>
-        rename_i c
+      | @cls c _ hreg htg _ =>
         obtain ⟨dd, hfd, hname⟩ := isRegistered_find env c hreg
         have hb : env.byTag n.tag = some dd := by rw [htg, byTag_bang']; exact hfd
         rw [tm_cls]
@@ -764,6 +874,7 @@ theorem loadNode_conforms (env : Env) (tbl : List Entry) (htbl : TableCore tbl) 
     · rename_i c hc
       simp only [Except.ok.injEq] at h
       rw [← h]
-      exact construct_conforms env tbl hwf fuel p.node T c (processNode_tagged env tbl htbl fuel n T p hp) hT hc
+      exact construct_conforms env tbl hwf fuel p.node T c
+        (processNode_tagged env tbl htbl hwf.paramNames fuel n T p hp) hT hc
 
 end YatimlModel
